@@ -42,6 +42,14 @@ def handle (args : List String) : Option String :=
       match op with
       | "ft" => if a.size ≠ 2*n then none else some (out1 n (ft n w dC (toC a)))
       | "ift" => if a.size ≠ 2*n then none else some (out1 n (ift n wi ninv nC dC (toC a)))
+      | "rft" => if a.size ≠ 2*n then none else some (out1 (n / 2 + 1) (rft n w dC (toC a)))
+      | "irft" =>
+          -- here `n` is the half-spectrum length m; the signal length is 2 (m − 1)
+          let nn := 2 * (n - 1)
+          if a.size ≠ 2*n ∨ nn = 0 then none else
+          let wi' := memo1 nn (twi nn)
+          let ninv' : CF := ⟨1.0 / nn.toFloat, 0.0⟩
+          some (out1 nn (irft n wi' ninv' Cx.conj ⟨nn.toFloat, 0.0⟩ dC (toC a)))
       | "ft2" => if a.size ≠ 2*n*n then none else
           let x : Nat → Nat → CF := fun i j => toC a (i*n+j)
           some (out2 n (ft2 n w dC x))
